@@ -1,6 +1,6 @@
 """C10 - mulgrid consistency.  Rules PAIR(+BACKREF), NBRSYM, COUPLE, REFRESH, NAMEKEY, REKEY."""
 import ast
-from ..core import parent_map, AnalysisError, norm, dotted, call_name, walk_no_nested, is_self_attr
+from ..core import argof, parent_map, AnalysisError, norm, dotted, call_name, walk_no_nested, is_self_attr
 from .. import flow, roles
 from ..containers import PAIRS
 from .c08 import pair_rule, namekey_rule, rule_rekey
@@ -537,7 +537,10 @@ def rule_nodeowner(run):
             arg = c.args[0]
             if isinstance(arg, ast.Name) and len(once.get(arg.id, [])) == 1: arg = once[arg.id][0]
             if not (isinstance(arg, ast.Call) and call_name(arg) == 'column' and len(arg.args) >= 2): continue
-            owners = set(o for o in (owner_of(e) for e in elements(arg.args[1])) if o is not None)
+            # geometries at hand: `self`, and whatever columns / nodes are added to in this function (a column's own `.node` list is not one)
+            geoms = set(['self']) | set(x.func.value.id for x in body if isinstance(x, ast.Call) and isinstance(x.func, ast.Attribute)
+                                        and x.func.attr in ('add_column', 'add_node') and isinstance(x.func.value, ast.Name))
+            owners = set(o for o in (owner_of(e) for e in elements(arg.args[1])) if o is not None and o in geoms)
             if not owners: continue
             nsite += 1
             key = '%s :: nodes of the column added to `%s` come from `%s`' % (fi.short, G, G)
@@ -558,7 +561,7 @@ def rule_validexit(run):
     n = 0
     for fi in sorted(prog.all_functions(MODS), key=lambda f: f.qual):
         fixes = [st for st in walk_no_nested(fi.node) if isinstance(st, ast.Expr) and isinstance(st.value, ast.Call) and call_name(st.value) == 'check'
-                 and isinstance(st.value.func, ast.Attribute) and any(k.arg == 'fix' and isinstance(k.value, ast.Constant) and k.value.value is True for k in st.value.keywords)]
+                 and isinstance(st.value.func, ast.Attribute) and isinstance(argof(st.value, 'fix'), ast.Constant) and argof(st.value, 'fix').value is True]
         if not fixes: continue
         n += 1
         rcv = norm(fixes[0].value.func.value)
